@@ -35,8 +35,16 @@ Scn == [layout : Layouts, issuer : Issuers, signKey : Keys, embedded : Keys \cup
         outer : {"same", "idp1", "idp2"},
         \* priorEnc: the same metadata store was asked for the issuer's *encryption* certificates just before (as an entity
         \* does whenever it encrypts something for that peer).  What is trusted for signing does not depend on it.
-        priorEnc : BOOLEAN]
-WellFormed(s) == /\ (s.signKey = "kBexp" \/ s.embedded = "kBexp") => s.layout = "signExpired"
+        priorEnc : BOOLEAN,
+        \* respIssuer: a signed Response that carries no Issuer element of its own (the assertion inside names scn.issuer).
+        \* The signed element then names nobody: no metadata key is the right one for it.
+        respIssuer : {"present", "absent"},
+        \* certOnly: (requests) the receiver has want_authn_requests_only_with_valid_cert set.  It adds a demand, it opens
+        \* no other source of keys.
+        certOnly : BOOLEAN]
+WellFormed(s) == /\ (s.respIssuer = "absent" => s.level = "response" /\ s.outer = "same" /\ ~s.priorEnc /\ s.issuer \in {"idp1", "idp2"})
+                 /\ (s.certOnly => s.level = "request" /\ ~s.priorEnc /\ s.outer = "same")
+                 /\ (s.signKey = "kBexp" \/ s.embedded = "kBexp") => s.layout = "signExpired"
                  /\ s.layout = "signExpired" => s.outer = "same" /\ ~s.priorEnc
                  /\ s.outer # "same" => s.level = "assertion" /\ s.outer # s.issuer
                  /\ s.priorEnc => s.outer = "same" /\ s.layout \in {"signAndEnc", "encOnly", "sign"} /\ s.embedded = "none"
@@ -44,6 +52,8 @@ WellFormed(s) == /\ (s.signKey = "kBexp" \/ s.embedded = "kBexp") => s.layout = 
 VARIABLES scn, pc, certs, verdict
 vars == <<scn, pc, certs, verdict>>
 
+\* the entity the signed element itself names
+SignedIssuer == IF scn.respIssuer = "absent" THEN "nobody" ELSE scn.issuer
 InMetadata(i)  == i = "idp2" \/ (i = "idp1" /\ scn.layout # "absent")
 Descriptors(i) == IF i = "idp2" THEN {<<"kIdp2", "signing">>} ELSE IF i = "idp1" THEN Descr(scn.layout) ELSE {}
 \* the signing certificates metadata holds for an entity: use="signing" or no use attribute
@@ -53,18 +63,19 @@ Init == scn \in {s \in Scn : WellFormed(s)} /\ pc = "select" /\ certs = {} /\ ve
 Done(v) == verdict' = v /\ pc' = "done" /\ UNCHANGED <<scn, certs>>
 \* certificate selection of _check_signature
 Select == /\ pc = "select"
-          /\ LET md == IF InMetadata(scn.issuer) THEN Trusted(scn.issuer) ELSE {}
+          /\ LET md == IF InMetadata(SignedIssuer) THEN Trusted(SignedIssuer) ELSE {}
                  cs == IF md = {} /\ ~scn.flag THEN (IF scn.embedded = "none" THEN {} ELSE {scn.embedded}) ELSE md
              IN IF cs = {} THEN Done("reject")                      \* MissingKey
                 ELSE certs' = cs /\ pc' = "verify" /\ UNCHANGED <<scn, verdict>>
 \* one tool run per certificate until one verifies
-Verify == pc = "verify" /\ Done(IF scn.signKey \in certs THEN "accept" ELSE "reject")
+\* (a response without Issuer gets no further than the signature layer: the SP reads the issuer next and fails)
+Verify == pc = "verify" /\ Done(IF scn.signKey \in certs /\ scn.respIssuer = "present" THEN "accept" ELSE "reject")
 
-MayAccept == \/ scn.signKey \in Trusted(scn.issuer)
-             \/ (~scn.flag /\ Trusted(scn.issuer) = {} /\ scn.signKey = scn.embedded)
+MayAccept == \/ scn.signKey \in Trusted(SignedIssuer)
+             \/ (~scn.flag /\ Trusted(SignedIssuer) = {} /\ scn.signKey = scn.embedded)
 MustReject == ~MayAccept
 \* (whether a signature under the expired certificate itself still counts is left open)
-MustAccept == scn.signKey \in Trusted(scn.issuer) /\ scn.outer = "same" /\ scn.signKey # "kBexp"
+MustAccept == scn.signKey \in Trusted(SignedIssuer) /\ scn.outer = "same" /\ scn.signKey # "kBexp" /\ ~scn.certOnly
 
 Emit == /\ pc = "done" /\ pc' = "emitted"
         /\ PrintT(<<"CASE", ToJson([scn |-> scn, model |-> verdict, mustAccept |-> MustAccept, mustReject |-> MustReject,
@@ -75,5 +86,5 @@ Spec == Init /\ [][Next]_vars
 PipelineMeetsContract == pc \in {"done", "emitted"} =>
     (MustReject => verdict = "reject") /\ (MustAccept => verdict = "accept")
 \* embedded certificates are never trusted with the default setting
-DefaultNeverTrustsEmbedded == pc \in {"done", "emitted"} /\ scn.flag /\ verdict = "accept" => scn.signKey \in Trusted(scn.issuer)
+DefaultNeverTrustsEmbedded == pc \in {"done", "emitted"} /\ scn.flag /\ verdict = "accept" => scn.signKey \in Trusted(SignedIssuer)
 =============================================================================
